@@ -1231,7 +1231,14 @@ def run_c11(ctx) -> Corr:
     corr = Corr("C11", "id requests interleaved with presentations over registry shapes: every subset of {0,1,2,253,254,255} as "
                 "the initial registry (complete), dense/sparse random registries, write faults on the response, request child "
                 "ids 255 and others x 5 versions; compared on the ids view (outcome, writes, registered ids) with the Lean "
-                "model; oracle = freshness and range restated in Python. non-trivial = distinct (registry keys, request)")
+                "model; oracle = freshness and range restated in Python. non-trivial = distinct (registry keys, request). "
+                "Plus lives of ONE Gateway object with a persistence file: several sessions (every enter restores the file into "
+                "the registry the object holds), final save failing with the volume away, file replaced / deleted / damaged "
+                "between sessions, other node files merged with Persistence.load, id requests and presentations in between; "
+                "oracle = ids handed out over the whole life are in range, pairwise distinct and distinct from every id the "
+                "object ever had registered (restored, presented, handed out); compared with the model on the ids view (a "
+                "successful load = gnode per file entry). non-trivial there = a load of a file lacking registered ids, and "
+                "every id request after one")
     rng = lib.rng_for(ctx.seed, "c11")
     hists = [h for _, h in corpus_histories("C11")]
     base = [0, 1, 2, 253, 254, 255]
@@ -1308,6 +1315,10 @@ def run_c11(ctx) -> Corr:
                 break
             handed.add(nid)
     account(corr, hists, impl, lambda h, op, before, o: op[0] == "recv" and ";3;" in op[1] and set(before["nodes"]) != set(o["nodes"]) or o["out"] == "err tooManyNodes")
+    # the registry as an application gets it: restored from a persistence file at every enter of the same Gateway object,
+    # final saves that fail, files replaced between sessions, other node files merged in (harness/props/idlife.py)
+    from . import idlife
+    idlife.run(corr, ctx)
     return corr
 
 
